@@ -103,14 +103,34 @@ func HarnessCopyStable() {
 	cand := vrt.Bytes("cand", 1+vrt.Choice("candlen", 3))
 	xv := vrt.Bytes("xv", vrt.Choice("xlen", 3))
 	xi := vrt.U64("xi")
+	split := vrt.Bool("split-int-keyspace")
+	src.SplitInts, dst.SplitInts = split, split
 	src.SetUint64([]byte("CurrentTerm"), ct)
 	src.SetUint64([]byte("LastVoteTerm"), lvt)
 	src.Set([]byte("LastVoteCand"), cand)
 	src.Set([]byte("extra"), xv)
 	src.SetUint64([]byte("extraInt"), xi)
+	extra, extraInt := [][]byte{[]byte("extra")}, [][]byte{[]byte("extraInt")}
+	// stores whose SetUint64 keys live apart from their Set keys (raft.InmemStore): the same
+	// name may be in use in both key spaces, with unrelated values; a standard key may be
+	// listed again among the extras
+	bv, bi := vrt.Bytes("both.bytes", 2), vrt.U64("both.int")
+	if split {
+		src.Set([]byte("both"), bv)
+		src.SetUint64([]byte("both"), bi)
+		extra = append(extra, []byte("both"), []byte("LastVoteCand"))
+		extraInt = append(extraInt, []byte("both"), []byte("CurrentTerm"))
+	}
 	ctx := &stepCtx{}
-	err := migrate.CopyStable(ctx, dst, src, [][]byte{[]byte("extra")}, [][]byte{[]byte("extraInt")}, nil)
+	err := migrate.CopyStable(ctx, dst, src, extra, extraInt, nil)
 	vrt.Assert("C19.copystable-ok", err == nil)
+	if split {
+		b1, _ := dst.Get([]byte("both"))
+		b2, _ := dst.GetUint64([]byte("both"))
+		vrt.Assert("C19.same-name-in-both-key-spaces.bytes", bytes.Equal(b1, bv))
+		vrt.Assert("C19.same-name-in-both-key-spaces.int", b2 == bi)
+		vrt.Reach("split-keyspace")
+	}
 	g1, _ := dst.GetUint64([]byte("CurrentTerm"))
 	g2, _ := dst.GetUint64([]byte("LastVoteTerm"))
 	g3, _ := dst.Get([]byte("LastVoteCand"))
